@@ -252,8 +252,16 @@ class ListProperty(Property):
         result = []
         has_custom = False
         if isinstance(self.contained, Property):
+            # (the documented signature of clean() has no "interoperability":
+            # not every property class takes it)
+            takes_interoperability = "interoperability" in inspect.signature(
+                self.contained.clean,
+            ).parameters
             for item in value:
-                valid, temp_custom = self.contained.clean(item, allow_custom, interoperability)
+                if takes_interoperability:
+                    valid, temp_custom = self.contained.clean(item, allow_custom, interoperability)
+                else:
+                    valid, temp_custom = self.contained.clean(item, allow_custom)
                 result.append(valid)
                 has_custom = has_custom or temp_custom
 
